@@ -112,9 +112,9 @@ theorem resolveRanges_unqualified (coords dflt : Text) (c1 r1 c2 r2 : Nat)
   have := matrix_of_area (if dflt = [] then [] else dflt ++ ['!']) c1 r1 c2 r2 hc1 hc2'
   simp only [this, sheetPrefix]
 
-/-- `resolve_ranges` on a coordinate text behind a sheet prefix `S!` -/
+/-- `resolve_ranges` on a coordinate text behind a sheet prefix `S!` (`S` may itself contain `!`) -/
 theorem resolveRanges_qualified (S S' coords dflt : Text) (c1 r1 c2 r2 : Nat)
-    (hS1 : ∀ ch ∈ S, ch ≠ '!') (hS2 : ∀ ch ∈ S, ch ≠ ',') (hres : resolveSheet S = some S')
+    (hS2 : ∀ ch ∈ S, ch ≠ ',') (hres : resolveSheet S = some S')
     (hch : ∀ ch ∈ coords, coordChar ch)
     (hb : rangeBoundaries coords = .val ⟨some c1, some r1, some c2, some r2⟩)
     (hc1 : 1 ≤ c1) (hc2 : 1 ≤ c2) (hc2' : c2 ≤ 18278) (hr1 : 1 ≤ r1) (hr2 : 1 ≤ r2) :
@@ -129,9 +129,8 @@ theorem resolveRanges_qualified (S S' coords dflt : Text) (c1 r1 c2 r2 : Nat)
       · exact coordChar_ne c (hch c h) ',' (Or.inl rfl)
   rw [splitOn_no_sep ',' _ hcomma]
   have hhas : has '!' (S ++ '!' :: coords) = true := (has_iff _ _).mpr (by simp)
-  have hsplit : splitOn '!' (S ++ '!' :: coords) = [S, coords] := by
-    rw [splitOn_append '!' S coords hS1,
-      splitOn_no_sep '!' coords (fun c hc => coordChar_ne c (hch c hc) '!' (Or.inr (Or.inl rfl)))]
+  have hsplit : rsplitLast '!' (S ++ '!' :: coords) = some (S, coords) :=
+    rsplitLast_append '!' S coords (fun c hc => coordChar_ne c (hch c hc) '!' (Or.inr (Or.inl rfl)))
   simp only [resolveAreas, hhas, if_true, hsplit, hres, Option.isSome_none, Bool.false_and, Bool.false_eq_true,
     if_false, hb, orDefault_some _ _ hc1, orDefault_some _ _ hc2, orDefault_some _ _ hr1, orDefault_some _ _ hr2,
     mergeRows_nil, Option.getD_some]
